@@ -178,6 +178,11 @@ func (r *Report) finish(id string, cfg *PropCfg, writeEvidence bool) int {
 			}
 		}
 		if isKnown {
+			if o.Bounded {
+				boundedObl--
+			} else {
+				proofObl-- // a known finding is reported on its own line, not counted among the obligations claimed
+			}
 			continue
 		}
 		dir := filepath.Join(verifDir, "replays", id, unsafeName.ReplaceAllString(o.Name, "_"))
@@ -252,7 +257,7 @@ func (r *Report) finish(id string, cfg *PropCfg, writeEvidence bool) int {
 	}
 	ev["coverage"] = cov
 	ev["assumptions"] = tb
-	if proofObl == 0 || (discharged == 0 && len(violations) == 0 && len(knownHit) == 0) {
+	if proofObl+boundedObl == 0 || (discharged == 0 && boundedObl == 0 && len(violations) == 0 && len(knownHit) == 0) {
 		return die(2, id, "no proof obligation was generated or discharged (vacuous run)")
 	}
 	if writeEvidence {
